@@ -395,23 +395,32 @@ def gridded_history(rep, r, n):
     from astropy.nddata import NDData
     from photutils.psf import GriddedPSFModel
     yy, xx = np.mgrid[0:9, 0:9]
-    psfs = []
-    pos = []
-    for gy in (0, 20, 40):
-        for gx in (0, 25, 50):
-            sig = 1.2 + 0.01 * gx + 0.02 * gy
-            d = np.exp(-((xx - 4) ** 2 + (yy - 4) ** 2) / (2 * sig ** 2))
-            psfs.append(d / d.sum())
-            pos.append((gx, gy))
-    nd = NDData(np.array(psfs), meta={'grid_xypos': pos, 'oversampling': 1})
+
+    def grid(gxs, gys):
+        psfs, pos = [], []
+        for gy in gys:
+            for gx in gxs:
+                sig = 1.2 + 0.01 * gx + 0.02 * gy
+                d = np.exp(-((xx - 4) ** 2 + (yy - 4) ** 2) / (2 * sig ** 2))
+                psfs.append(d / d.sum())
+                pos.append((gx, gy))
+        return NDData(np.array(psfs), meta={'grid_xypos': pos, 'oversampling': 1})
+    # 3x3, 4x4 and 5x4 grids with unequal, non-uniform spacings along the two axes
+    grids = [((0, 25, 50), (0, 20, 40)), ((0, 10, 20, 30), (0, 10, 20, 30)), ((0, 8, 30, 36, 60), (5, 20, 24, 50))]
 
     def ev(m, x0, y0):
         m = m.copy() if False else m
         m.x_0, m.y_0, m.flux = x0, y0, 3.0
         y, x = np.mgrid[int(y0) - 3:int(y0) + 4, int(x0) - 3:int(x0) + 4]
         return m.evaluate(x, y, 3.0, x0, y0)
-    for _ in range(n):
-        pts = [(r.uniform(-5, 55), r.uniform(-5, 45)) for _ in range(4)]
+    for k in range(n):
+        gxs, gys = grids[k % len(grids)]
+        nd = grid(gxs, gys)
+        pts = [(r.uniform(min(gxs) - 5, max(gxs) + 5), r.uniform(min(gys) - 5, max(gys) + 5)) for _ in range(6)]
+        if k % 2:
+            # neighbouring cells, both orders
+            cx, cy = r.choice(gxs[:-1]), r.choice(gys[:-1])
+            pts += [(cx + 3.5, cy + 2.5), (cx + 3.5 + (gxs[1] - gxs[0]), cy + 2.5), (cx + 3.5, cy + 2.5 + (gys[1] - gys[0]))]
         m = GriddedPSFModel(nd)
         for (x0, y0) in pts + pts[::-1]:
             a = ev(m, x0, y0)
@@ -445,7 +454,7 @@ def run(rep, tier):
     profile_stream(rep, drv, r, 60 * scale)
     call_objects(rep, r, 4 * scale)
     aperture_setters(rep, r, 40 * scale)
-    gridded_history(rep, r, 6 * scale)
+    gridded_history(rep, r, 24 * scale)
     ellipse_calls(rep, r)
 
 
